@@ -220,8 +220,14 @@ func c12(x *mon.Ctx) {
 			o := combos[r.Intn(4)]
 			c := w.Case(world.LCrl, "history", fmt.Sprintf("h%d/step%d:%s/%s", i, s, label, o.name))
 			c.GetCollateral, c.CheckCRL = o.get, o.crl
-			if s > 0 && r.Intn(3) == 0 { // the same quote again under other settings
-				// keep c as is: a new world is also fine; repetition comes from the small corpus of fault kinds
+			switch r.Intn(8) {
+			case 0: // an Intel sample under the embedded root: TrustedRoots nil for this step
+				c = intelCase([][]byte{intelSprE4, intelCos113}[s%2], []time.Time{sprE4Time, cos113Time}[s%2], "history")
+				c.Param = fmt.Sprintf("h%d/step%d:intel-sample/base", i, s)
+				label, o = "intel-sample", combos[2]
+			case 1: // the caller leaves the verification time to the library for this step
+				c.DefaultTime = true
+				label += "+default-time"
 			}
 			fresh, g := mon.Options(c)
 			// copy the exported settings into the shared value, as a caller re-using it would
